@@ -92,6 +92,8 @@ type MRealm struct {
 	AllowDisclose bool
 	MetaStrict    bool
 	MetaModify    bool // wamp.session.modify_details is provided
+	Authz         *TableAuthz // this realm's Authorizer (nil: the executor's, if any)
+	LocalAuthz    bool        // ... consulted for local sessions too
 	Sess          map[int]*MSess
 	Subs          []*MSub
 	NoKill        bool // this realm was configured without the kill procedures
